@@ -161,7 +161,10 @@ func (r *renderer) Render(w io.Writer, source []byte, n ast.Node) error {
 	err := ast.Walk(n, func(n ast.Node, entering bool) (ast.WalkStatus, error) {
 		s := ast.WalkStatus(ast.WalkContinue)
 		var err error
-		f := r.nodeRendererFuncs[n.Kind()]
+		var f NodeRendererFunc
+		if k := int(n.Kind()); k >= 0 && k < len(r.nodeRendererFuncs) {
+			f = r.nodeRendererFuncs[k]
+		}
 		if f != nil {
 			s, err = f(writer, source, n, entering)
 		}
